@@ -63,5 +63,11 @@ Proof.
   all: try assumption.
   all: try solve [rewrite ?Hda; assumption].
   all: try solve [arr_arith].
+  all: repeat match goal with
+         | Hx : context [nthZ (cumsum_int 0 ?d) ?k] |- _ =>
+             rewrite (nthZ_cumsum_int d 0 k) in Hx by lia; cbn [to_int] in Hx
+         | |- context [nthZ (cumsum_int 0 ?d) ?k] => rewrite (nthZ_cumsum_int d 0 k) by lia; cbn [to_int]
+         end.
+  all: try solve [arr_arith].
   all: match goal with |- ?G => idtac "GOAL" G end.
 Qed.
